@@ -74,11 +74,14 @@ func TestRegressions(tt *testing.T) {
 		{NIn: 1, Branches: 32, HonestSize: true},
 		{NIn: 1, Branches: 33, HonestSize: true},
 		{NIn: 1, Branches: 40, HonestSize: true, Index: 0xffffffff},
+		{NIn: 1, HonestSize: true, HonestIdx: true, ScriptKind: 4, Cut: 1}, // 7 bytes after the aux root
+		{NIn: 1, HonestSize: true, HonestIdx: true, ScriptKind: 4, Cut: 4}, // 4 bytes after the aux root
 	} {
 		exerciseAuxPow(t, s.build(bh, []byte("r")), bh, 1224)
 	}
 	count("auxpow-no-coinbase-input")
 	count("auxpow-32-or-more-branches")
+	count("auxpow-incomplete-nonce")
 
 	// --- transaction level (DPoS era node)
 	tn, err := newTestNode("mid", 24)
